@@ -467,6 +467,43 @@ func (s *fsess) hazardPrefill() error {
 		s.victims = vs
 		s.st.Count("hazard_prefixes_late_delete", 1)
 	}
+	// variant "pristine": the newer segment receives nothing but the victims' delete records
+	// and distinct keys written once (no record of it is ever superseded before the crash);
+	// then recovery, a clean restart and a few overwrites of its keys. Whatever the database
+	// knows about that segment afterwards is what survived Close and Open after the recovery.
+	pristine := !late && core.Pct(s.ch, "pristine_newer_segment", 35)
+	if pristine {
+		for _, k := range vs {
+			if err := s.del(k); err != nil {
+				return err
+			}
+		}
+		before := s.numSegments()
+		var written []string
+		for _, k := range bKeys {
+			if err := s.put(k, core.PickInt(s.ch, "pristine_vlen", []int{120, 300})); err != nil {
+				return err
+			}
+			written = append(written, k)
+			if s.numSegments() > before {
+				break
+			}
+		}
+		if err := s.killAndRecover(); err != nil {
+			return err
+		}
+		if err := s.reopen(); err != nil {
+			return err
+		}
+		for i, n := 0, s.ch.Int("pristine_touch", 1, 3); i < n && i < len(written); i++ {
+			if err := s.put(written[i], core.PickInt(s.ch, "churn_vlen", []int{5, 20, 60})); err != nil {
+				return err
+			}
+		}
+		s.st.Count("hazard_prefixes_pristine", 1)
+		s.st.Count("hazard_prefixes", 1)
+		return nil
+	}
 	// newer segment: overwrite and/or delete the victims
 	for _, k := range vs {
 		if late {
@@ -484,8 +521,10 @@ func (s *fsess) hazardPrefill() error {
 		}
 	}
 	// churn on keys that do not live in the old segment
+	lastHot := ""
 	churn := func(label string) error {
 		hot := bKeys[s.ch.Int(label, 0, len(bKeys)-1)]
+		lastHot = hot
 		lo, vl := 0, []int{5, 20, 60}
 		if late && label == "churnkey2" {
 			// enough garbage for the segment that is current when Compact is called to be
@@ -521,6 +560,21 @@ func (s *fsess) hazardPrefill() error {
 			return err
 		}
 		s.st.Count("hazard_prefix_with_recovery_before_compaction", 1)
+		if core.Pct(s.ch, "clean_restart_after_recovery", 50) {
+			// what the recovery rebuilt in memory (segment metadata above all) has to survive
+			// being persisted by Close and reloaded by a clean Open before compaction uses it
+			if err := s.reopen(); err != nil {
+				return err
+			}
+			s.st.Count("hazard_prefix_with_clean_restart_after_recovery", 1)
+			// garbage produced in the new session in a segment loaded from disk (the newer
+			// segment becomes eligible again on what this session knows about it)
+			for i, n := 0, s.ch.Int("touch_after_restart", 0, 3); i < n && lastHot != ""; i++ {
+				if err := s.put(lastHot, core.PickInt(s.ch, "churn_vlen", []int{5, 20, 60})); err != nil {
+					return err
+				}
+			}
+		}
 	}
 	s.st.Count("hazard_prefixes", 1)
 	return nil
